@@ -29,13 +29,25 @@ KINDS_2 = ("RENAMING PRIVATE SYMBOLS everywhere they are used (module-level help
            "(same numerical result bit for bit), using an equivalent library call (e.g. jnp.hstack vs jnp.concatenate for 1-d "
            "inputs, jnp.logical_and vs &, x.reshape vs jnp.reshape, jnp.asarray placement), changing the order of keyword "
            "arguments, hoisting loop-invariant computations, caching a repeated sub-expression in a local")
+KINDS_4 = ("INDIRECTION-STYLE refactors that move code without changing what runs: hoisting a nested closure or lambda "
+           "into a module-level function, a functools.partial of one, or a small callable class (plain class with __init__ "
+           "and __call__ keeping the default identity equality, or a frozen dataclass); introducing a module-level alias or "
+           "functools.partial for a repeated library call with exactly the arguments used today; sharing identical code of "
+           "sibling classes through a new private mixin / intermediate base class or a private helper method on the base "
+           "class; replacing an __init__ that only casts and stores by dataclass-style fields with eqx.field(converter=<the "
+           "same cast>) or the reverse; adding __repr__ / __post_init__ that only validates; wrapping a block in a context "
+           "manager that does not change results (jax.named_scope); computing the same thing through a private property; "
+           "passing the same values by keyword through one more layer (helper taking **kwargs and forwarding them); "
+           "moving a constant to a module-level name; turning a dict literal lookup into a match / if chain; replacing a "
+           "tuple return by a NamedTuple; re-exporting a private helper from another module of the package and importing it "
+           "from there")
 base = json.load(open("/root/.vp/BASELINE.json"))
 os.makedirs(root, exist_ok=True)
 open(f"{root}/baseline_stable_pass.txt", "w").write("\n".join(base["stable_pass"]) + "\n")
 open(f"{root}/baseline_always_fail.txt", "w").write("\n".join(base.get("always_fail", [])) + "\n")
 for a, area in areas.items():
     wt = f"{root}/wt_{a}"
-    kinds = KINDS_1 if rnd == 1 else KINDS_2
+    kinds = KINDS_1 if rnd == 1 else KINDS_4 if rnd >= 4 else KINDS_2
     open(f"{root}/prompt_{a}.txt", "w").write(f"""You are helping test a code-analysis tool for false alarms. You work ONLY inside your own scratch git worktree: {wt} (a detached worktree of the Python library flowjax, a JAX/Equinox library of bijections, distributions, normalizing flows and training loops). Do NOT read or write anything under /verif, /root/.vp, /root/.claude, /repo, or any other directory under /tmp.
 
 TASK: produce SIX independent, strictly BEHAVIOUR-PRESERVING refactorings (call them R1..R6) of the library source in this area: {area}. Each must be the kind of commit a maintainer would plausibly make and a reviewer would accept as a pure refactor / clean-up, for example: {kinds}. Make them non-trivial (each should touch at least a few lines of real code, not only comments) and DIFFERENT in kind from each other; spread them over the files of the area. They must NOT change any observable behaviour for any input (values, shapes, errors raised and their types, randomness/key usage, gradients, pytree structure of the models, numerical stability: do not replace a numerically stable formula by a mathematically equivalent unstable one, and do not change the order of floating-point operations).
